@@ -608,7 +608,7 @@ def run_check(pid, tier):
             if 'pos' in fams or 'nostd' in fams or 'send' in fams:
                 for f in t4r['pos_failures']:
                     is_send = any('Send' in e or 'cannot be sent' in e for e in f['errors'])
-                    is_nostd = f['config'] in ('nostd', 'typestate')
+                    is_nostd = True      # a definition that does not compile with std does not compile without it either
                     if ('pos' in fams) or ('send' in fams and is_send) or ('nostd' in fams and is_nostd):
                         violations.append(({'property': pid, 'broken': 'property',
                                             'what': f"well-formed definition does not compile in configuration {f['config']}: " + '; '.join(f['errors'][:2]),
